@@ -204,3 +204,170 @@ pub fn context_sensitive_multi_path(
   }
   None
 }
+
+/// serialised module entries keyed by specifier (from `serde_json::to_value`)
+pub fn serialized_modules(g: &ModuleGraph) -> BTreeMap<String, serde_json::Value> {
+  let v = graph_json(g);
+  let mut out = BTreeMap::new();
+  if let Some(arr) = v.get("modules").and_then(|m| m.as_array()) {
+    for m in arr {
+      if let Some(s) = m.get("specifier").and_then(|s| s.as_str()) {
+        out.insert(s.to_string(), m.clone());
+      }
+    }
+  }
+  out
+}
+
+/// Differences between two graphs restricted to `scope` (None = everything):
+/// entries (kind / error text), serialised modules and redirects.
+/// Returns (signature suffix, message) pairs; a divergence on a specifier
+/// whose acceptance is context sensitive is reported alone, under
+/// `context-sensitive-acceptance/<class>` (everything downstream of it
+/// differs as a consequence).
+pub fn diff_graphs(
+  world: &crate::world::World,
+  a: &ModuleGraph,
+  b: &ModuleGraph,
+  an: &str,
+  bn: &str,
+  scope: Option<&BTreeSet<String>>,
+  compare_serialized: bool,
+) -> Vec<(String, String, String)> {
+  let ae = entries(a, false);
+  let be = entries(b, false);
+  let in_scope = |k: &String| scope.map(|s| s.contains(k)).unwrap_or(true);
+  let mut out = Vec::new();
+  for (k, v) in &ae {
+    if !in_scope(k) {
+      continue;
+    }
+    if let Some(w) = be.get(k) {
+      if w != v {
+        if let Some(class) = acceptance_is_context_sensitive(world, k) {
+          return vec![(
+            format!("context-sensitive-acceptance/{class}"),
+            k.clone(),
+            format!("{k}: {an}={v} {bn}={w}"),
+          )];
+        }
+      }
+    }
+  }
+  for (k, v) in &ae {
+    if !in_scope(k) {
+      continue;
+    }
+    match be.get(k) {
+      None => out.push((
+        format!("entry/only-in-{an}/{}", crate::props::c17::norm_state(v)),
+        k.clone(),
+        format!("{k}: {an} has {v}, {bn} has nothing"),
+      )),
+      Some(w) if w != v => out.push((
+        format!(
+          "entry/differs/{}/{}",
+          crate::props::c17::norm_state(v),
+          crate::props::c17::norm_state(w)
+        ),
+        k.clone(),
+        format!("{k}: {an}={v} {bn}={w}"),
+      )),
+      _ => {}
+    }
+  }
+  for (k, w) in &be {
+    if in_scope(k) && !ae.contains_key(k) {
+      out.push((
+        format!("entry/only-in-{bn}/{}", crate::props::c17::norm_state(w)),
+        k.clone(),
+        format!("{k}: {bn} has {w}, {an} has nothing"),
+      ));
+    }
+  }
+  if compare_serialized && out.is_empty() {
+    let am = serialized_modules(a);
+    let bm = serialized_modules(b);
+    for (k, v) in &am {
+      if !in_scope(k) {
+        continue;
+      }
+      if let Some(w) = bm.get(k) {
+        if v != w {
+          out.push((
+            "serialized-module-differs".to_string(),
+            k.clone(),
+            format!("{k}:\n {an}={v}\n {bn}={w}"),
+          ));
+        }
+      }
+    }
+  }
+  let ar = redirects(a);
+  let br = redirects(b);
+  for (k, v) in &ar {
+    if !in_scope(k) {
+      continue;
+    }
+    match br.get(k) {
+      None => out.push((
+        format!("redirect/only-in-{an}"),
+        k.clone(),
+        format!("{k} -> {v} only in {an}"),
+      )),
+      Some(w) if w != v => out.push((
+        "redirect/differs".to_string(),
+        k.clone(),
+        format!("{k}: {an} -> {v}, {bn} -> {w}"),
+      )),
+      _ => {}
+    }
+  }
+  for (k, w) in &br {
+    if in_scope(k) && !ar.contains_key(k) {
+      out.push((
+        format!("redirect/only-in-{bn}"),
+        k.clone(),
+        format!("{k} -> {w} only in {bn}"),
+      ));
+    }
+  }
+  if !out.is_empty() {
+    if let Some(class) = context_sensitive_multi_path(world) {
+      let first = out[0].2.clone();
+      return vec![(
+        format!("context-sensitive-acceptance/{class}"),
+        out[0].1.clone(),
+        format!("(through a redirect/alias to a context-sensitive answer) {first}"),
+      )];
+    }
+  }
+  out
+}
+
+/// Specifiers that are (redirect chains of) source-map assets of modules of `g`.
+pub fn source_map_targets(g: &ModuleGraph) -> BTreeSet<String> {
+  let mut out = BTreeSet::new();
+  for m in g.modules() {
+    if let Some(js) = m.js() {
+      if let Some(s) = js
+        .maybe_source_map_dependency
+        .as_ref()
+        .and_then(|d| d.dependency.maybe_specifier())
+      {
+        let mut cur = s.clone();
+        out.insert(cur.to_string());
+        let mut n = 0;
+        while let Some(next) = g.redirects.get(&cur) {
+          cur = next.clone();
+          out.insert(cur.to_string());
+          n += 1;
+          if n > 32 {
+            break;
+          }
+        }
+      }
+    }
+  }
+  out
+}
